@@ -55,7 +55,7 @@ def build_c(repo, scratch):
     return m
 
 
-def check_one(peaks, impls):
+def check_one(peaks, impls, storage=False):
     """returns None or a dict describing the first discrepancy"""
     import numpy as np
     ref = astm_reference(list(peaks))
@@ -93,6 +93,44 @@ def check_one(peaks, impls):
             if not (np.array_equal(o2, os_) and np.array_equal(r2[:, 0], abs(a) * rf[:, 0]) and np.array_equal(r2[:, 1], a * rf[:, 1] + b)
                     and np.array_equal(r2[:, 2], rf[:, 2])):
                 return dict(impl=name, peaks=list(peaks), what="table of %g*x+%g is not the transformed table" % (a, b))
+        # the same sequence in other storage: integer / unsigned / narrow float element types (when the values are exactly representable), Python list, and
+        # non-contiguous views (every second element of a longer array, a reversed view, a column of a C-ordered and a row of a Fortran-ordered 2-D array)
+        if storage:
+            variants = [("list", list(float(x) for x in peaks))]
+            isint = all(float(x).is_integer() for x in peaks)
+            lo, hi = min(peaks), max(peaks)
+            if isint:
+                for dt, a_, b_ in (("int64", -2 ** 62, 2 ** 62), ("int32", -2 ** 31, 2 ** 31 - 1), ("int16", -2 ** 15, 2 ** 15 - 1), ("int8", -128, 127)):
+                    if a_ <= lo and hi <= b_:
+                        variants.append((dt, np.array(peaks, float).astype(dt)))
+                sh = -int(lo) if lo < 0 else 0
+                for dt, top in (("uint8", 255), ("uint16", 65535), ("uint64", 2 ** 63)):
+                    if hi + sh <= top:
+                        variants.append((dt + " (shifted by %d)" % sh, (np.array(peaks, float) + sh).astype(dt)))
+                        break
+            if all(float(np.float32(x)) == float(x) for x in peaks):
+                variants.append(("float32", np.array(peaks, np.float32)))
+            big = np.zeros(2 * len(peaks)); big[::2] = peaks
+            variants.append(("strided view x[::2]", big[::2]))
+            variants.append(("reversed view x[::-1]", np.array(peaks[::-1], float)[::-1]))
+            m2 = np.zeros((len(peaks), 3)); m2[:, 1] = peaks
+            variants.append(("column of a C-ordered matrix", m2[:, 1]))
+            m3 = np.zeros((3, len(peaks)), order="F"); m3[1, :] = peaks
+            variants.append(("row of a Fortran-ordered matrix", m3[1, :]))
+            for vname, arr in variants:
+                shift = 0.0
+                if "shifted by" in vname:
+                    shift = float(vname.split("shifted by ")[1].rstrip(")"))
+                for go in (True, False):
+                    try:
+                        out = fn(arr, go)
+                    except Exception as ex:
+                        return dict(impl=name, peaks=list(peaks), storage=vname, what="exception %r for input stored as %s" % (ex, vname))
+                    r3 = np.asarray(out[0] if go else out)
+                    want3 = rrf.copy(); want3[:, 1] += shift
+                    if r3.shape != want3.shape or not np.array_equal(r3, want3) or (go and not np.array_equal(np.asarray(out[1]), ros)):
+                        return dict(impl=name + "(getoffsets=%s)" % go, peaks=list(peaks), storage=vname,
+                                    what="the same sequence stored as %s gives a different table / offsets than the ASTM reference" % vname, got=r3.tolist(), want=want3.tolist())
     return None
 
 
@@ -141,7 +179,7 @@ def main():
             if p in seen:
                 continue
             seen.add(p)
-            f = check_one(p, impls)
+            f = check_one(p, impls, storage=(len(seen) % 7 == 0))
             if f:
                 res["failure"] = f
                 break
